@@ -196,7 +196,8 @@ Definition capture_list (ncap : Z) (start e : Z) (c : caps) : list (Z * Z) :=
 
 (* Pattern.MatchFromStart (fromStart = true) / Pattern.Match (false),
    including the deferred recover(): budgetConsumed is turned into
-   (nil, budget+1); any other panic is raised again (MPanic). *)
+   (nil, budget+1); any other panic leaves the named results at (nil, 0)
+   (a_panicked records it; MPanic is unused by the current code). *)
 Definition api (fromStart : bool) (p : pattern) (fuel : nat) (s : list Z) (init : Z) (B : Z) : apires :=
   let r :=
     if fromStart && p_sanchor p
@@ -209,6 +210,6 @@ Definition api (fromStart : bool) (p : pattern) (fuel : nat) (s : list Z) (init 
     mkApi (MCaps (capture_list (p_ncap p) start e c)) (if 0 <? B then used else 0) false
   | (ONoMatch _, used, _) => mkApi MNil (if 0 <? B then used else 0) false
   | (OBudget, _, _) => mkApi MNil (B + 1) false
-  | (OPanic, _, _) => mkApi MPanic 0 true      (* re-panicked by the deferred function *)
+  | (OPanic, _, _) => mkApi MNil 0 true        (* swallowed by the blanket recover(): (nil, 0) *)
   | (OOutOfFuel, _, _) => mkApi MFuel 0 false
   end.
